@@ -12,13 +12,18 @@ RULE = ("constructed pairs (recorded program P, replayed program P'): P is a fau
         "literal results; P' asks for present and absent inputs/outputs; the FULL cross product of the missing-key options for "
         "one probe call - fallbacks {none, list without hit, list with hit, function with hit, function raising} x "
         "run-original x substitute {none, 5, 0, '', [], {}, False, callable} x data handler {none, wrap} x present/absent, "
-        "and for outputs fail-flag x default x present/absent/handler failing on what the replayed code sends - each replayed "
+        "and for outputs fail-flag x default x present/absent/handler failing on what the replayed code sends; absent calls that "
+        "differ from a recorded call of the same input only in the TYPE of an argument (1 / True / 1.0, tuple / list, bytes / str, "
+        "two classes with equal attributes; positional and keyword; both directions; absent twin before the recorded call) - each replayed "
         "with recording enabled and disabled and one to three times; plus random program pairs; non-trivial = every case; "
-        "distinct = distinct (P, P', options)")
+        "distinct = distinct (P, P', options); plus (implementation only) replays started from INSIDE an operation that is being "
+        "recorded on the same recorder (recording mode and playback mode at once): constructed and random (P, P') x endpoint "
+        "input before / output after x three cassettes")
 EXHAUSTIVE = {"quick": True, "thorough": True}
 ASSUMPTIONS = ["a recorded exception whose type is RecordingKeyError is indistinguishable from a missing key (outside the "
                "program domain: user code does not raise framework exceptions)"]
-TRUSTED = ["expectations of the constructed pairs are known by construction (harness-side, no model)"]
+TRUSTED = ["expectations of the constructed pairs are known by construction (harness-side, no model)",
+           "nested replays (play() inside a recorded operation) are outside the Coq model: direct predicate only"]
 THEOREMS = ["C02_replay_writes_nothing", "C02_replay_is_readonly", "C02_no_body_runs", "C02_replay_policy",
             "C02_recorded_answer_is_own_key", "C02_output_policy", "C02_replay_repeatable"]
 
@@ -185,7 +190,122 @@ def extra_cases():
         calls = [site2("north", pv.i(99)), site2("south", pv.i(99))]
         Pp = opdef(dict(k="try", c=seq(calls, {"k": "ret", "e": {"var": 1}}), h={"k": "ret", "e": {"lit": pv.s("caught")}}))
         cases.append((P, [Pp, Pp], dict(kind="in", alias="cfg {p}", expect=want)))
+    # (f) a call that differs from a recorded call of the same input ONLY in the type of an argument (1 / True / 1.0, tuple /
+    # list, bytes / str, objects of two classes with equal attributes - the values compare equal or look alike) is a different
+    # call: absent from the recording, so the policy decides - never the value recorded for the look-alike; and the recorded
+    # call itself is still answered when it is requested after its absent twin
+    from props.c01 import TWINS
+    k = 0
+    for tw in TWINS:
+        for a, b in itertools.permutations(tw, 2):
+            by_kw = bool(k % 2)
+            handler = ["none", "wrap"][(k // 2) % 2]
+            k += 1
+
+            def site(v, result, **cfgkw):
+                st = in_site("cfg", v, result, handler=handler, **cfgkw)
+                if by_kw:
+                    st["args"], st["kwargs"] = [], [["flag", {"lit": v}]]
+                return st
+            P = opdef(seq([site(a, pv.i(10)), in_site("cfg", pv.s("other"), pv.i(12), handler=handler)],
+                          {"k": "ret", "e": {"lit": pv.s("done")}}))
+            for vm, want in (({"kind": "none"}, ("exn", "KeyMissing", False)), ({"kind": "lit", "v": pv.i(0)}, ("val", pv.i(0), False))):
+                Pp = opdef(dict(k="try", c=seq([site(b, pv.i(99), vmiss=vm)], {"k": "ret", "e": {"var": 0}}),
+                                h={"k": "ret", "e": {"lit": pv.s("caught")}}))
+                cases.append((P, [Pp, Pp], dict(kind="in", alias="cfg", expect=want)))
+            # the absent twin first (answered by its substitute), then the recorded call: the probe looks at the LAST call
+            Pp = opdef(dict(k="try", c=seq([site(b, pv.i(99), vmiss={"kind": "lit", "v": pv.i(0)}), site(a, pv.i(98))],
+                                           {"k": "ret", "e": {"var": 1}}), h={"k": "ret", "e": {"lit": pv.s("caught")}}))
+            cases.append((P, [Pp], dict(kind="in", alias="cfg", expect=("val", pv.i(10), False))))
     return cases
+
+
+# ---- a replay started from INSIDE an operation that is being recorded on the same recorder (implementation only) -----------
+W_NESTED = dict(W, recdata=0.0, force=0.0, playdata=0.0, spawn=0.0)      # (record_data is the caller's own write, not an interception)
+
+
+def nested_cases(rng, tier):
+    """recording mode AND playback mode at once: a decorated "replay this recording" endpoint (itself recorded, with an input
+    before and an output after the replay, aliases of its own) calls play() on a recording of P with the program P' - P itself,
+    P asking for an added output without a recorded result (default), random pairs."""
+    out = []
+    progs = []
+    for handler in ("none", "wrap"):
+        P = opdef(seq([in_site("a0", pv.i(1), pv.i(10), handler=handler), out_site("o0", pv.i(5), pv.i(20)),
+                       out_site("oh", pv.i(3), pv.i(22), handler="wrap"), in_site("a1", pv.i(2), pv.i(11), handler=handler),
+                       out_site("o0", pv.i(6), pv.i(21))], {"k": "ret", "e": {"var": 4}}))
+        progs.append((P, rd.clean(P), True))
+        added = opdef(seq([in_site("a0", pv.i(1), pv.i(99), handler=handler), out_site("o0", pv.i(5), pv.i(98)),
+                           out_site("new", pv.i(1), pv.i(97), fail=False, default=pv.s("dflt"))], {"k": "ret", "e": {"var": 2}}))
+        progs.append((P, added, False))
+        Pe = opdef(seq([out_site("o0", pv.i(1), pv.i(20))],
+                       dict(k="try", c=seq([in_site("ex", pv.i(1), None, raises="KeyError", handler=handler)], {"k": "ret", "e": {"lit": pv.i(0)}}),
+                            h={"k": "raise", "ty": "ValueError"})))
+        progs.append((Pe, rd.clean(Pe), True))
+    k = 0
+    for P, Pp, same in progs:
+        for pre, post in ((True, True), (False, True), (True, False)):
+            out.append(dict(kind="nested", draws=[], cassette=["memory", "file", "s3"][k % 3], pre=pre, post=post, same_program=same,
+                            runs=[dict(kind="record", enabled=True, prm=PRM, op=rd.clean(P), save_fails=False)], replayed=rd.clean(Pp)))
+            k += 1
+    def fault_free(op):
+        # a data handler that FAILS on what the replayed code sends makes the recorder call discard_recording() - a no-op in
+        # an ordinary replay, but here it drops the endpoint's active recording (observed on the unchanged code: cassette calls
+        # create, get, abort).  Tolerated faults are C04's subject; the handlers of these cases succeed.
+        for n in rd.walk(op["body"]):
+            if n["k"] == "out" and n["cfg"]["handler"] == "raises":
+                n["cfg"]["handler"] = "wrap"
+            if n["k"] == "in" and n["cfg"]["handler"] in ("prep_raises", "restore_raises"):
+                n["cfg"]["handler"] = "wrap"
+        return op
+    for _ in range(10 if tier == "quick" else 150):
+        P = fault_free(rd.rand_opdef(rng, W_NESTED, budget=8, cls="OpA"))
+        same = rng.random() < 0.6
+        Pp = rd.clean(P) if same else fault_free(rd.rand_opdef(rng, W_NESTED, budget=8, cls="OpA"))
+        out.append(dict(kind="nested", draws=[], cassette="memory", pre=rng.random() < 0.7, post=rng.random() < 0.7, same_program=False,
+                        runs=[dict(kind="record", enabled=True, prm=PRM, op=P, save_fails=False)], replayed=Pp, unshare=True))
+    return out
+
+
+OWN_KEY_PREFIXES = ("input: endpoint.context ", "output: endpoint.report #", "output: _tape_recorder_operation #")
+
+
+def direct_nested(case, obs):
+    """the replay - although an operation is being recorded on the same recorder - answers every interception from the
+    recording it plays, runs no wrapped body (unless opted in), reaches the cassette only to fetch, and writes NOTHING into
+    the recording that is active; the surrounding operation is recorded with its own interceptions only."""
+    from props.c01 import top_calls
+    rec_ob, play, outer = obs["record"], obs["play"], obs["outer"]
+    if not [c for c in rec_ob["cass"] if c["c"] == "save"] or any(c.get("fetch_ok") is False for c in rec_ob["cass"]):
+        return []
+    fails = []
+    where = "replay nested in a recorded operation (%s cassette%s%s)" % (
+        case["cassette"], ", endpoint input before" if case.get("pre") else "", ", endpoint output after" if case.get("post") else "")
+    if outer["modes_before"] != [True, False]:
+        return [("nested-endpoint-not-recording", "%s: modes before play() are %s" % (where, outer["modes_before"]))]
+    kinds = [c["c"] for c in play["cass"]]
+    if kinds != ["get"]:
+        fails.append(("cassette-touched-by-play", "%s: play() reached the cassette with %s" % (where, kinds)))
+    opted = {n["cfg"]["alias"] for n in rd.walk(case["replayed"]["body"]) if n["k"] == "in" and n["cfg"]["run_missing"]}
+    ran = [e["alias"] for e in play["trace"] if e["e"] == "body" and e["alias"] not in opted]
+    if ran:
+        fails.append(("body-executed-during-replay", "%s: wrapped bodies ran while replaying: %s" % (where, ran)))
+    if case.get("same_program") and play["outcome"] == {"o": "val", "v": {"t": "none"}}:
+        a, b_ = top_calls(rec_ob["trace"]), top_calls(play["trace"])
+        if a != b_:
+            j = next((i for i, (x, y) in enumerate(zip(a, b_)) if x != y), min(len(a), len(b_)))
+            fails.append(("answer-is-not-the-recorded-value", "%s: intercepted call #%d: recorded %s, replayed %s" %
+                          (where, j, a[j] if j < len(a) else None, b_[j] if j < len(b_) else None)))
+    if outer["outcome"]["o"] == "val":
+        if outer["saved"] is None:
+            fails.append(("nested-endpoint-recording-lost", "%s: the surrounding operation completed but was not saved (cassette calls %s)" %
+                          (where, outer["cass"])))
+        else:
+            foreign = sorted(k for k, _ in outer["saved"] if not k.startswith(OWN_KEY_PREFIXES))
+            if foreign:
+                fails.append(("replay-wrote-into-active-recording", "%s: the recording of the surrounding operation holds entries written "
+                              "by the replay: %s" % (where, foreign[:4])))
+    return fails
 
 
 def generate(rng, tier):
@@ -209,12 +329,15 @@ def generate(rng, tier):
         for r in range(rng.randrange(1, 4)):
             runs.append(dict(kind="play", target=0, pf={"kind": "op", "op": rd.clean(Pp)}, enabled=rng.random() < 0.5))
         cases.append(dict(draws=[], runs=runs, cassette="memory", store_check=True, unshare=True))
+    cases += nested_cases(rng, tier)
     return cases
 
 
 def direct(case, obs):
     if "driver_exception" in obs:
         return [("driver", obs["driver_exception"] + obs.get("trace", "")[-400:])]
+    if case.get("kind") == "nested":
+        return direct_nested(case, obs)
     if f07c_affected(obs):
         return []          # region of known finding F07c (reported by C01): nothing is concluded from such a case
     fails = []
@@ -272,6 +395,41 @@ def direct(case, obs):
     return fails
 
 
+# ---- nested cases are implementation only: the hooks of rec_common apply to history cases --------------------------------------
+_h_to_gallina, _h_explain, _h_features, _h_nontrivial, _h_shrink = to_gallina, explain, features, nontrivial, shrink_candidates  # noqa: F405
+
+
+def _is_nested(case):
+    return case.get("kind") == "nested"
+
+
+def to_gallina(case, obs):  # noqa: F811
+    return None if _is_nested(case) else _h_to_gallina(case, obs)
+
+
+def explain(case, obs):  # noqa: F811
+    return "tt" if _is_nested(case) else _h_explain(case, obs)
+
+
+def features(case):  # noqa: F811
+    if not _is_nested(case):
+        fs = _h_features(case)
+        if (case.get("probe") or {}).get("alias") == "cfg":
+            fs.add("probe:absent-call-differs-from-a-recorded-one-in-argument-type-only")
+        return fs
+    return {"replay-nested-in-a-recorded-operation", "cassette:" + case["cassette"], "nested:endpoint-input-before=%s" % bool(case.get("pre")),
+            "nested:endpoint-output-after=%s" % bool(case.get("post")),
+            "nested:" + ("same-program" if case.get("same_program") else "other-program")} | rd.features_of_code(case["replayed"]["body"])
+
+
+def nontrivial(case):  # noqa: F811
+    return True if _is_nested(case) else _h_nontrivial(case)
+
+
+def shrink_candidates(case):  # noqa: F811
+    return [] if _is_nested(case) else _h_shrink(case)
+
+
 MANIFEST = dict(
     design_ref="6/C02",
     text="Coq theorems over all programs, recordings and configurations: replay writes into no recording and aborts nothing, "
@@ -283,7 +441,9 @@ MANIFEST = dict(
          "predicate: constructed (P, P') pairs with expectations known by construction over the full cross product of the "
          "missing-key options (~700 configurations incl. falsy substitutes, fallbacks with and without hit, failing fallback "
          "function, recorded exceptions, output handler failing on what replayed code sends), replayed 1-3 times with recording "
-         "enabled and disabled, spy cassette, serialized store compared before/after; plus random program pairs.",
+         "enabled and disabled, spy cassette, serialized store compared before/after; plus random program pairs. Round 6: absent "
+         "calls that are type twins of a recorded call (model + direct); a replay nested in a recorded operation answers from the "
+         "played recording, runs no body, only fetches, and leaves the ACTIVE recording without any entry of its own (direct only).",
     note="Trusted: Coq kernel + vm_compute, hand-written model, correspondence harness, by-construction expectations. A recorded "
          "exception of type RecordingKeyError is outside the domain (indistinguishable from a missing key).",
     technique="Coq proof (structural induction + case analysis of the decorator in playback mode = declarative policy) + "
